@@ -52,6 +52,23 @@ mod no_std_error;
 mod stack;
 #[cfg(all(rbpf_verif, feature = "std"))]
 pub mod verif;
+
+// Wraps the expression that produces an execution's result: with `--cfg rbpf_verif` the result is
+// handed to the recorder; otherwise it is the bare expression.
+#[cfg(all(rbpf_verif, feature = "std"))]
+macro_rules! verif_result {
+    ($e:expr) => {{
+        let res = $e;
+        crate::verif::exec_end(&res);
+        res
+    }};
+}
+#[cfg(not(all(rbpf_verif, feature = "std")))]
+macro_rules! verif_result {
+    ($e:expr) => {
+        $e
+    };
+}
 mod verifier;
 
 /// Reexports all the types needed from the `std`, `core`, and `alloc`
@@ -493,17 +510,16 @@ impl<'a> EbpfVmMbuff<'a> {
             &mut stack_usage.into_iter().flat_map(|u| u.entries()),
             self.stack_verifier.has_calculator(),
         );
-        let res = interpreter::execute_program(
+        verif_result!(
+        interpreter::execute_program(
             self.prog,
             stack_usage,
             mem,
             mbuff,
             &self.helpers,
             &self.allowed_memory,
-        );
-        #[cfg(all(rbpf_verif, feature = "std"))]
-        crate::verif::exec_end(&res);
-        res
+        )
+        )
     }
 
     /// JIT-compile the loaded program. No argument required for this.
@@ -638,7 +654,8 @@ impl<'a> EbpfVmMbuff<'a> {
             &mut self.stack_usage.iter().flat_map(|u| u.entries()),
             self.stack_verifier.has_calculator(),
         );
-        let res = unsafe {
+        verif_result!(
+        unsafe {
             match &self.jit {
                 Some(jit) => Ok(jit.get_prog()(
                     mbuff.as_ptr() as *mut u8,
@@ -650,10 +667,8 @@ impl<'a> EbpfVmMbuff<'a> {
                 )),
                 None => Err(Error::other("Error: program has not been JIT-compiled")),
             }
-        };
-        #[cfg(all(rbpf_verif, feature = "std"))]
-        crate::verif::exec_end(&res);
-        res
+        }
+        )
     }
 
     /// Compile the loaded program using the Cranelift JIT.
@@ -764,7 +779,8 @@ impl<'a> EbpfVmMbuff<'a> {
             &mut self.stack_usage.iter().flat_map(|u| u.entries()),
             self.stack_verifier.has_calculator(),
         );
-        let res = match &self.cranelift_prog {
+        verif_result!(
+        match &self.cranelift_prog {
             Some(prog) => {
                 Ok(prog.execute(mem_ptr, mem.len(), mbuff.as_ptr() as *mut u8, mbuff.len()))
             }
@@ -772,10 +788,8 @@ impl<'a> EbpfVmMbuff<'a> {
                 ErrorKind::Other,
                 "Error: program has not been compiled with cranelift",
             )),
-        };
-        #[cfg(all(rbpf_verif, feature = "std"))]
-        crate::verif::exec_end(&res);
-        res
+        }
+        )
     }
 }
 
@@ -1287,7 +1301,8 @@ impl<'a> EbpfVmFixedMbuff<'a> {
             &mut self.parent.stack_usage.iter().flat_map(|u| u.entries()),
             self.parent.stack_verifier.has_calculator(),
         );
-        let res = unsafe {
+        verif_result!(
+        unsafe {
             match &self.parent.jit {
                 Some(jit) => Ok(jit.get_prog()(
                     self.mbuff.buffer.as_ptr() as *mut u8,
@@ -1299,10 +1314,8 @@ impl<'a> EbpfVmFixedMbuff<'a> {
                 )),
                 None => Err(Error::other("Error: program has not been JIT-compiled")),
             }
-        };
-        #[cfg(all(rbpf_verif, feature = "std"))]
-        crate::verif::exec_end(&res);
-        res
+        }
+        )
     }
 
     /// Compile the loaded program using the Cranelift JIT.
@@ -1418,7 +1431,8 @@ impl<'a> EbpfVmFixedMbuff<'a> {
             mem.as_ptr() as u64 + mem.len() as u64,
         );
 
-        let res = match &self.parent.cranelift_prog {
+        verif_result!(
+        match &self.parent.cranelift_prog {
             Some(prog) => Ok(prog.execute(
                 mem_ptr,
                 mem.len(),
@@ -1429,10 +1443,8 @@ impl<'a> EbpfVmFixedMbuff<'a> {
                 ErrorKind::Other,
                 "Error: program has not been compiled with cranelift",
             )),
-        };
-        #[cfg(all(rbpf_verif, feature = "std"))]
-        crate::verif::exec_end(&res);
-        res
+        }
+        )
     }
 }
 
